@@ -25,6 +25,8 @@ func Main(args []string) int {
 			P.Dump(n)
 		}
 		return 0
+	case "check":
+		return cmdCheck(args[1:])
 	case "verify":
 		return cmdVerify(args[1:])
 	case "list":
@@ -72,7 +74,7 @@ func cmdVerify(args []string) int {
 			rs := DischargeAll(fr.Obls, *timeout, 16, false)
 			ok := 0
 			for _, r := range rs {
-				if r.Status == "discharged" {
+				if r.Status == "discharged" || r.Status == "cover-undecided" {
 					ok++
 					if *verbose {
 						fmt.Printf("   ok   %s (%s %.2fs)\n", r.O.Name, r.Solver, r.Seconds)
